@@ -5,10 +5,12 @@ from ..rateprobe import run_case, reference, updated, common_buckets, exc_detail
 PROPERTY = "C02"
 PYTEST_PREFIX = "C02/"
 LEVEL = "exploration"
-RULE = ("Games whose players are all distinct in (mu, sigma, name); every real rate() return is checked against a "
-        "pre-call snapshot: same nesting, id and name per slot, pairwise distinct result objects, numbers at (i,j) "
-        "inside 10x the C01 tolerance box of THAT slot (reference evaluated once per call), and inputs afterwards all "
-        "untouched or all equal to the returned rating of the same player. Non-trivial: the outcome vector is not "
+RULE = ("Games whose players all carry unique names (values distinct in most regimes; a quarter of the games use teams "
+        "with IDENTICAL values, where only identity can tell players apart); every real rate() return is checked against "
+        "a pre-call snapshot: same nesting, id and name per slot, pairwise distinct result objects, numbers at (i,j) inside "
+        "10x the C01 tolerance box of THAT slot or else not a re-arrangement of the reference posteriors (a re-arrangement "
+        "is the violation; numbers that fit no arrangement are C01's business), and inputs afterwards all untouched or all "
+        "equal to the returned rating of the same player. Non-trivial: the outcome vector is not "
         "already sorted (un-sorting did work) or limit_sigma bound on some slot; distinct by canonical hash.")
 ASSUMPTIONS = ["players of one game are distinct objects (the library mutates its arguments in place)",
                "mpmath reference as in C01 (used at 10x tolerance: this check is about placement)"]
@@ -24,7 +26,8 @@ def floors(tier):
 def generate(ctx):
     n = ctx.budget(8000, 120000)
     for _ in range(n):
-        regime = ctx.rng.choice(["typical", "wide", "equal_size", "equal_size", "huge_sigma", "mismatch", "tiny_sigma"])
+        regime = ctx.rng.choice(["typical", "wide", "equal_size", "equal_size", "huge_sigma", "mismatch", "tiny_sigma",
+                                 "identical", "identical"])
         case, meta = gen.gen_case(ctx.rng, regime=regime)
         if ctx.rng.random() < 0.5:
             # make limit_sigma likely to bind: large tau relative to sigma
@@ -61,21 +64,52 @@ def probe_game(ctx, payload):
                 ctx.violation("identity/duplicate-object", "game", payload, dict(slot=[i, j]), model, reg)
                 return
             seen.add(id(p))
-    # placement: numbers at (i, j) are the posterior of the player passed at (i, j)
+    # placement: numbers at (i, j) are the posterior of the player passed at (i, j).  This clause is about WHERE numbers
+    # end up, not about their last digits (C01 judges those): a slot outside its own 10x box is a placement violation
+    # only if the returned numbers, taken as a multiset, are the reference posteriors in some other arrangement
+    # (every returned pair fits the 10x box of some slot, one-to-one).  Numbers that fit no arrangement are counted as
+    # 'numeric_mismatch_not_placement' and left to C01/C06.
     ref, info = reference(run)
     binding = 0
-    for i, (rrow, grow) in enumerate(zip(ref, run.res)):
-        for j, (r, (mu, sg)) in enumerate(zip(rrow, grow)):
-            ctx.ev("placement")
-            lo = r["sig"] - 10 * (r["sig"] - r["sig_lo"])
-            hi = r["sig"] + 10 * (r["sig_hi"] - r["sig"])
-            if not (abs(mu - r["mu"]) <= 10 * r["mu_tol"]) or not (lo <= sg <= hi):
-                ctx.violation("placement", "game", payload,
-                              dict(slot=[i, j], got=[mu, sg], want=[float(r["mu"]), float(r["sig"])],
-                                   mu_tol10=float(10 * r["mu_tol"]), sig_box10=[float(lo), float(hi)]), model, reg)
-                return
-            if run.limit and sg == run.pri[i][j][1]:
-                binding += 1
+    flat_ref = [(i, j, r) for i, rrow in enumerate(ref) for j, r in enumerate(rrow)]
+    flat_got = [(i, j, g) for i, grow in enumerate(run.res) for j, g in enumerate(grow)]
+
+    def fits(g, r):
+        lo = r["sig"] - 10 * (r["sig"] - r["sig_lo"])
+        hi = r["sig"] + 10 * (r["sig_hi"] - r["sig"])
+        return abs(g[0] - r["mu"]) <= 10 * r["mu_tol"] and lo <= g[1] <= hi
+
+    own_bad = []
+    for (i, j, g), (_, _, r) in zip(flat_got, flat_ref):
+        ctx.ev("placement")
+        if not fits(g, r):
+            own_bad.append((i, j))
+        if run.limit and g[1] == run.pri[i][j][1]:
+            binding += 1
+    if own_bad:
+        # bipartite matching result-slot -> reference-slot (augmenting paths; at most 64 slots)
+        adj = [[b for b, (_, _, r) in enumerate(flat_ref) if fits(g, r)] for (_, _, g) in flat_got]
+        match = {}
+
+        def aug(a, seen):
+            for b in adj[a]:
+                if b in seen:
+                    continue
+                seen.add(b)
+                if b not in match or aug(match[b], seen):
+                    match[b] = a
+                    return True
+            return False
+
+        perfect = all(aug(a, set()) for a in range(len(flat_got)))
+        if perfect:
+            moved = [[list(flat_got[a][:2]), list(flat_ref[b][:2])] for b, a in match.items() if a != b][:6]
+            i, j = own_bad[0]
+            ctx.violation("placement", "game", payload,
+                          dict(slot=[i, j], got=list(run.res[i][j]), want=[float(ref[i][j]["mu"]), float(ref[i][j]["sig"])],
+                               result_slot_matches_reference_slot=moved), model, reg)
+            return
+        ctx.count("numeric_mismatch_not_placement")
     # inputs afterwards: all untouched, or all equal to the returned rating of the same player
     ctx.ev("inputs-consistent")
     untouched = mutated = other = 0
